@@ -1,5 +1,44 @@
 (* C15 — visitors enter/leave every AST node exactly once, nested, in list order.
-   (statements only; proofs live in coq/proofs) *)
-From GT Require Import Visitor.
-Example C15_placeholder : True. Proof. exact I. Qed.
-Print Assumptions C15_placeholder.
+   Statements only; every proof is one [exact] of a lemma from coq/proofs. *)
+From GT Require Import Visitor SchemaVisitor Sexp.
+From GTS Require Import SpecLin PoolSchemas.
+From GTP Require Import VisitorFacts TraceFacts.
+
+(* The callback sequence of the operation visitor is the structural linearisation of the
+   document, for EVERY schema (so also one that knows none of the names) and every document. *)
+Theorem C15_events : forall (s : sdocument) (d : document),
+  map fst (trace s d) = lin_document d.
+Proof. intros s d. rewrite trace_eq. exact (ctr_document_events s d ctx0). Qed.
+Print Assumptions C15_events.
+
+(* That linearisation is properly nested: blocks  Enter n · (children, in list order) · Leave n. *)
+Theorem C15_nested : forall d : document, Nested (lin_document d).
+Proof. exact Nested_document. Qed.
+Print Assumptions C15_nested.
+
+(* A visitor with any handler and any user state sees exactly the trace: the traversal is the
+   fold of the handler over it (the handler gets each callback once, in trace order). *)
+Theorem C15_fold_fusion : forall St (h : St -> event -> ctx -> St) s d c st,
+  snd (visit_document h s d c st)
+  = fold_left (fun st ec => h st (fst ec) (snd ec)) (snd (tr_document s d c)) st.
+Proof.
+  intros St h s d c st. rewrite tr_document_eq, (visit_document_fusion h s d c st). reflexivity.
+Qed.
+Print Assumptions C15_fold_fusion.
+
+(* Schema visitor: same guarantee for schema documents without type extensions ... *)
+Theorem C15_schema : forall sd : sdocument,
+  no_extensions sd = true -> visit_schema_document sd = Some (lin_schema sd).
+Proof. exact visit_schema_document_lin. Qed.
+Print Assumptions C15_schema.
+
+(* ... and the only failure (the panic) is a type extension. *)
+Theorem C15_schema_panic_exact : forall sd : sdocument,
+  no_extensions sd = false -> visit_schema_document sd = None.
+Proof. exact visit_schema_document_panics. Qed.
+Print Assumptions C15_schema_panic_exact.
+
+(* non-vacuity: a pool schema has no extensions *)
+Example C15_schema_example : opt_map no_extensions pool_crate = Some true.
+Proof. vm_compute. reflexivity. Qed.
+Print Assumptions C15_schema_example.
